@@ -400,7 +400,7 @@ def run(tier, seed, replay=None):
         fail('analytic circle curvature', {}, 'raised %s' % type(e).__name__)
 
     # ---------------------------------------------------------------- L1: centre and basis integrals vs the exact model
-    corr_bad = None
+    corr_bad = C.Corr()
     lines, meta = [], []
     for ent in l1[: (200 if tier == 'quick' else 100000)]:
         if len(ent) == 2:
@@ -417,11 +417,11 @@ def run(tier, seed, replay=None):
         nl1 += 1
         got = np.array([float(v) for v in tk.qlist()])
         want = np.asarray(want, dtype=float).reshape(-1)
-        if (got.shape != want.shape or np.max(np.abs(got - want), initial=0) > 1e-10 * max(1.0, np.max(np.abs(want), initial=0))) and corr_bad is None:
-            corr_bad = {'what': 'L1: %s differs from the exact model: %s vs %s' % (kind, want.tolist(), got.tolist()), 'op': kind,
+        if (got.shape != want.shape or np.max(np.abs(got - want), initial=0) > 1e-10 * max(1.0, np.max(np.abs(want), initial=0))) and corr_bad.open():
+            corr_bad += {'what': 'L1: %s differs from the exact model: %s vs %s' % (kind, want.tolist(), got.tolist()), 'op': kind,
                         'args': O.spec_json(x) if kind == 'center' else {'order': x['order'], 'knots': [str(v) for v in x['knots']], 'periodic': x['periodic']}}
     dist['op']['L1 comparisons'] = nl1
-    rc = V.finish(l0, corr_bad if not V.fail else None)
+    rc = V.finish(l0, corr_bad)
     C.write_evidence(PID, tier, seed, l0, {
         'evaluations': evals, 'distinct_nontrivial': len(nontriv),
         'rule': 'regular random objects (pardim 1-3, rational or not): length/area/volume and centre before/after knot insertion, refinement, order elevation (against a heavily refined '
